@@ -126,8 +126,10 @@ static void _core_fini(void) {
 	core_types = 0;
 }
 static void _core_init(void) {
-	core_types = calloc(sizeof(*core_types), MPT_ENUM(_TypeCoreSize));
 	size_t i;
+	if (!(core_types = calloc(sizeof(*core_types), MPT_ENUM(_TypeCoreSize)))) {
+		return;
+	}
 	for (i = 0; i < MPT_arrsize(core_sizes); i++) {
 		int pos = core_sizes[i].type;
 		*((size_t *) &core_types[pos].size) = core_sizes[i].size;
@@ -140,8 +142,10 @@ static void _scalar_fini(void) {
 	scalar_types = 0;
 }
 static void _scalar_init(void) {
-	scalar_types = calloc(sizeof(*scalar_types), MPT_ENUM(_TypeScalarSize));
 	size_t i;
+	if (!(scalar_types = calloc(sizeof(*scalar_types), MPT_ENUM(_TypeScalarSize)))) {
+		return;
+	}
 	for (i = 0; i < MPT_arrsize(scalar_sizes); i++) {
 		int pos = scalar_sizes[i].type - MPT_ENUM(_TypeScalarBase);
 		*((size_t *) &scalar_types[pos].size) = scalar_sizes[i].size;
@@ -154,8 +158,10 @@ static void _iovec_fini(void) {
 	iovec_types = 0;
 }
 static void _iovec_init(void) {
-	iovec_types = calloc(sizeof(*iovec_types), MPT_ENUM(_TypeVectorSize));
 	size_t i;
+	if (!(iovec_types = calloc(sizeof(*iovec_types), MPT_ENUM(_TypeVectorSize)))) {
+		return;
+	}
 	for (i = 0; i < MPT_arrsize(scalar_sizes); i++) {
 		int pos = scalar_sizes[i].type - MPT_ENUM(_TypeScalarBase);
 		*((size_t *) &iovec_types[pos].size) = sizeof(struct iovec);
@@ -268,6 +274,10 @@ extern const MPT_STRUCT(type_traits) *mpt_type_traits(MPT_TYPE(type) type)
 	if (type < MPT_ENUM(_TypeCoreSize)) {
 		if (!core_types) {
 			_core_init();
+			/* table could not be created */
+			if (!core_types) {
+				return 0;
+			}
 		}
 		return core_types[type].size ? &core_types[type] : 0;
 	}
@@ -275,6 +285,10 @@ extern const MPT_STRUCT(type_traits) *mpt_type_traits(MPT_TYPE(type) type)
 	if (MPT_type_isScalar(type)) {
 		if (!scalar_types) {
 			_scalar_init();
+			/* table could not be created */
+			if (!scalar_types) {
+				return 0;
+			}
 		}
 		type -= MPT_ENUM(_TypeScalarBase);
 		return scalar_types[type].size ? &scalar_types[type] : 0;
@@ -283,6 +297,10 @@ extern const MPT_STRUCT(type_traits) *mpt_type_traits(MPT_TYPE(type) type)
 	if (MPT_type_isVector(type)) {
 		if (!iovec_types) {
 			_iovec_init();
+			/* table could not be created */
+			if (!iovec_types) {
+				return 0;
+			}
 		}
 		type -= MPT_ENUM(_TypeVectorBase);
 		return iovec_types[type].size ? &iovec_types[type] : 0;
